@@ -169,7 +169,7 @@ impl Gen {
         let n = self.rng.below(4) as usize;
         OPT {
             opt_codes: (0..n)
-                .map(|_| OPTCode { code: self.u16(), data: self.blob().into() })
+                .map(|_| OPTCode { code: if self.rng.chance(1, 2) { *self.rng.pick(&[0u16, 1, 2, 3, 5, 6, 7, 8, 9, 10, 11, 12, 13, 14, 15, 16, 17, 65001]) } else { self.u16() }, data: self.blob().into() })
                 .collect(),
             udp_packet_size: *self.rng.pick(&[0u16, 512, 1232, 4096, 65535]),
             version: *self.rng.pick(&[0u8, 0, 0, 1, 127, 255]),
